@@ -1106,6 +1106,11 @@ class NumpyTensor(Tensor):
         else:
             if is_numeric_dtype(self.dtype):
                 weighting = self.space.weighting
+                if isinstance(weighting, ArrayWeighting):
+                    # Select the weights belonging to the selected entries
+                    weighting = NumpyTensorSpaceArrayWeighting(
+                        np.asarray(weighting.array)[indices],
+                        exponent=weighting.exponent)
             else:
                 weighting = None
             space = type(self.space)(
